@@ -91,6 +91,10 @@ def check(ctx):
                 if aliases & wl:
                     r1.ok("%s: %s over %s seeds a worklist (popped until empty; results only enter maps/sets)" % (short_path(f.id), s.call.name, s.source))
                     continue
+            if s.call.name == "extend" and s.call.args and _base(f, s.call.args[0]) in wl:
+                # `worklist.extend(set.iter().filter(..).cloned())`: the same feeding of the function's own worklist as a push loop
+                r1.ok("%s: %s over %s extends the function's own worklist (popped until empty; results only enter maps/sets)" % (short_path(f.id), s.call.name, s.source))
+                continue
             if s.call.name == "next" and s.detail.get("key", "").startswith("body-sink:Vec::push") and s.detail["key"] == "body-sink:Vec::push":
                 # every Vec::push in the function targets a worklist
                 pushes = [c for c in f.calls if short_path(c.path) == "Vec::push"]
